@@ -6,7 +6,7 @@
    [H] is the 64-bit key hash: universally quantified, so every statement
    holds under hash collisions.  [cfg_valid c] is exactly what
    NewFailureCache accepts: 1 s <= initialTTL <= maxTTL <= 5 min. *)
-From Sdns Require Import Common.Base Common.GoList Gen.C13 C13.Model C13.Proofs_Base C13.Proofs_Backoff C13.Proofs_Cache C13.Proofs_Conc C13.Proofs_Gen C13.Proofs_Wire C13.Proofs_Walk C13.Proofs_Cohort.
+From Sdns Require Import Common.Base Common.GoList Gen.C13 C13.Model C13.Proofs_Base C13.Proofs_Backoff C13.Proofs_Cache C13.Proofs_Conc C13.Proofs_Gen C13.Proofs_Wire C13.Proofs_Walk C13.Proofs_Cohort C13.Proofs_Fanout.
 Open Scope Z_scope.
 
 (* The backoff starts at the configured minimum, is non-decreasing, at most
@@ -301,6 +301,27 @@ Proof.
           (fun n sched a => election_only_when_idle _ a (probe_inv_run n sched)))).
 Qed.
 Print Assumptions abandoned_leader_is_never_replaced.
+
+(* The fan-out itself (Resolver.lookup; Model.v part 4: the servers are started two at once and
+   then one per timer tick or consumed non-final result, results are consumed in whatever order
+   they arrive, NXDOMAIN ends the lookup early for the root / a TLD or as third response error,
+   pickFallbackResponse chooses among what was collected).  For EVERY schedule of arrivals and
+   timer ticks, every zone depth and every mix of server behaviours: when the lookup ends in
+   something Resolver.resolve publishes as a zone failure (a server-failure-class fallback
+   response or the connection-failed error), no server of the zone gave a usable response —
+   each one was heard and each answered with a failure rcode, an error / nothing, or a bogus
+   referral; and an answer is the usable response of a server of the zone. *)
+Theorem zone_failure_published_only_after_every_server_failed : forall servers level sched o,
+  fo_done (fo_run servers level sched) = Some o -> fo_published o = true ->
+  forallb (fun s => negb (srv_usable s)) servers = true.
+Proof. exact fanout_publishes_only_when_every_server_failed. Qed.
+Print Assumptions zone_failure_published_only_after_every_server_failed.
+
+Theorem fanout_answer_is_a_usable_response : forall servers level sched i,
+  fo_done (fo_run servers level sched) = Some (FOAnswer i) ->
+  nth i servers SSilent = SHealthy \/ nth i servers SSilent = SRcode 0.
+Proof. exact Proofs_Fanout.fanout_answer_is_a_usable_response. Qed.
+Print Assumptions fanout_answer_is_a_usable_response.
 
 (* Requests that share one dedup key while a miss is being resolved (Cache.ServeDNS,
    JoinGeneration path; Model.v part 3: the ladder a follower runs when it wakes is the
